@@ -48,7 +48,7 @@ impl Row {
     fn cp_text(&self) -> String {
         let w = self.width as usize;
         match (&self.mal, self.end) {
-            (Mal::BadCp(k), _) => match k % 10 {
+            (Mal::BadCp(k), _) => match k % 16 {
                 0 => String::new(),
                 1 => format!("{:0w$X}G", self.start),
                 2 => "ZZZZ".to_string(),
@@ -58,7 +58,13 @@ impl Row {
                 6 => format!("{:0w$X}--{:0w$X}", self.start, self.end.unwrap_or(self.start)),
                 7 => format!("{:0w$X} {:0w$X}", self.start, self.start),
                 8 => format!("{:0w$X}-{:X}", self.start, 0x110000u32 + self.start),
-                _ => format!("{:0w$X}..{:0w$X}", self.start, self.end.unwrap_or(self.start)),
+                9 => format!("{:0w$X}..{:0w$X}", self.start, self.end.unwrap_or(self.start)),
+                10 => format!("{:0w$X}-{:0w$X}-{:0w$X}", self.start, self.end.unwrap_or(self.start), self.end.unwrap_or(self.start)),
+                11 => format!("U+{:0w$X}", self.start),
+                12 => format!("{:0w$X};{:0w$X}", self.start, self.start),
+                13 => format!("0x{:0w$X}", self.start),
+                14 => format!("{:0w$X}?", self.start),
+                _ => format!("?{:0w$X}", self.start),
             },
             (_, Some(e)) => format!("{:0w$X}-{:0w$X}", self.start, e),
             (_, None) => format!("{:0w$X}", self.start),
@@ -70,7 +76,7 @@ impl Row {
             Some((q, b1, b2)) => format!("{}{}or{}{}", PROP_NAMES[self.p1 as usize], " ".repeat(b1 as usize), " ".repeat(b2 as usize), PROP_NAMES[q as usize]),
         };
         match &self.mal {
-            Mal::BadProp(k) => match k % 10 {
+            Mal::BadProp(k) => match k % 16 {
                 0 => String::new(),
                 1 => good.to_lowercase(),
                 2 => format!("{}X", PROP_NAMES[self.p1 as usize]),
@@ -80,7 +86,17 @@ impl Row {
                 6 => format!("{} or BOGUS", PROP_NAMES[self.p1 as usize]),
                 7 => format!("BOGUS or {}", PROP_NAMES[self.p1 as usize]),
                 8 => format!("{} and {}", PROP_NAMES[self.p1 as usize], PROP_NAMES[(self.p1 as usize + 1) % 7]),
-                _ => "VALID".to_string(),
+                9 => "VALID".to_string(),
+                // a valid single or pair with junk before or after it
+                10 => match self.p2 {
+                    Some(_) => format!("{} or {}", PROP_NAMES[(self.p1 as usize + 3) % 7], good),
+                    None => format!("{} or {} or {}", PROP_NAMES[(self.p1 as usize + 3) % 7], good, PROP_NAMES[(self.p1 as usize + 5) % 7]),
+                },
+                11 => format!("?{good}"),
+                12 => format!("{good}?"),
+                13 => format!("42 {good}"),
+                14 => format!("{good} or"),
+                _ => format!("{}|{good}", PROP_NAMES[(self.p1 as usize + 2) % 7]),
             },
             _ => good,
         }
@@ -240,6 +256,10 @@ pub fn ref_line(line: &str) -> RefLine {
                 (Some(a), Some(b)) => pv = Some((a, Some(b))),
                 _ => return RefLine::Malformed,
             }
+        } else if props.chars().any(|c| !(c == ' ' || c == '_' || c.is_ascii_alphabetic())) {
+            return RefLine::Malformed; // characters that occur in no property name or pair
+        } else if toks.len() > 3 && toks.iter().all(|t| *t == "or" || name(t).is_some()) {
+            return RefLine::Malformed; // more than two members
         } else if !props.is_empty() && props.chars().all(|c| c == '_' || c.is_ascii_uppercase()) {
             return RefLine::Malformed; // a single unknown word
         } else if props.is_empty() {
@@ -357,8 +377,8 @@ pub fn row_strategy(mal_weight: u32) -> BoxedStrategy<Row> {
     let mal = prop_oneof![
         (100 - mal_weight) => Just(Mal::None),
         mal_weight / 3 + 1 => (0u8..3).prop_map(Mal::DropFields),
-        mal_weight / 3 + 1 => (0u8..10).prop_map(Mal::BadProp),
-        mal_weight / 3 + 1 => (0u8..10).prop_map(Mal::BadCp),
+        mal_weight / 3 + 1 => (0u8..16).prop_map(Mal::BadProp),
+        mal_weight / 3 + 1 => (0u8..16).prop_map(Mal::BadCp),
     ];
     (cp.clone(), proptest::option::weighted(0.4, cp), 4u8..=6, 0u8..7, proptest::option::weighted(0.3, (0u8..7, 1u8..=3, 1u8..=3)), desc_strategy(), mal)
         .prop_map(|(a, b, width, p1, p2, desc, mal)| {
@@ -375,8 +395,9 @@ pub fn run(run: &Run) {
     run.set_rule(
         "Generator: structured rows: code point or start-end (4-6 upper-case hex digits, zero padded, all values 0..=0x10FFFF incl. surrogates, start <= end), \
          one of the 7 property names or an ordered pair joined by 'or' with 1-3 blanks either side, description = arbitrary text without line terminators \
-         (commas, quotes, non-ASCII, empty); malformed rows by construction: 0/1/2 fields only, 10 bad property spellings (typo, lower case, dangling or \
-         leading 'or', unknown member, 'and'), 10 bad code point spellings (empty, non-hex, > 10FFFF, dangling/doubled '-', blank inside, '..'); whole files \
+         (commas, quotes, non-ASCII, empty); malformed rows by construction: 0/1/2 fields only, 16 bad property spellings (typo, lower case, dangling or \
+         leading 'or', unknown member, 'and', a valid single/pair with junk or a third member before or after it), 16 bad code point spellings (empty, non-hex, \
+         > 10FFFF, dangling/doubled/tripled '-', blank inside, '..', 'U+', '0x', junk prefix/suffix); whole files \
          (header + 0..12 rows, LF or CRLF, with/without final newline) written under /verif/work and read through CsvLineParser::from_path; every \
          property-name string of the 7 names and near-misses; the real IANA file against my own CSV reader. Deliberately not asserted either way: \
          lower-case or sign-prefixed hex, over-long zero padding, reversed ranges. Oracle: round trip against the generator's structured row (same code \
